@@ -40,7 +40,7 @@ func init() {
 		},
 		Run: run,
 		Floors: func(t string) map[string]int64 {
-			return map[string]int64{"pair.hop": 500, "pair.axis": 300, "pair.ordinary": 300, "pair.twin": 200, "pair.gridshift": 100, "pair.krovak": 100, "pair.short_towgs84_list": 100, "history.built_from_used_references": 3000, "history.calls": 20000, "history.repeat_call": 2000, "history.to_registered_wgs84": 1000, "history.from_registered_wgs84": 1000, "history.failing_input": 1000, "pair.one_side_cannot_be_set_up": 100,
+			return map[string]int64{"pair.hop": 500, "pair.axis": 300, "pair.ordinary": 300, "pair.twin": 200, "pair.gridshift": 100, "pair.krovak": 100, "pair.short_towgs84_list": 100, "history.built_from_used_references": 3000, "history.calls": 20000, "history.repeat_call": 2000, "history.to_registered_wgs84": 1000, "history.from_registered_wgs84": 1000, "history.from_an_edited_copy_of_S": 1000, "history.failing_input": 1000, "pair.one_side_cannot_be_set_up": 100,
 				"structure.failing_k": 10000, "structure.shared_backing_array": 1000, "structure.arbitrary_bit_patterns": 1000, "longpath.vertices>=2048": 15, "structure.nil_transformer": 1000, "structure.real_transformer": 1000, "structure.*Bounds": 100, "structure.GeometryCollection": 100, "structure.MultiPolygon": 100, "structure.MultiLineString": 100}
 		},
 	})
@@ -120,6 +120,31 @@ func fresh(src, dst string, in [2]float64) (o outcome) {
 		return outcome{err: true}
 	}
 	t, err := s.NewTransform(d)
+	if err != nil {
+		return outcome{err: true}
+	}
+	return apply(t, in)
+}
+
+// freshCopy is fresh() for a source that is a value copy of the parsed reference with its central
+// meridian moved by dl (radians): a copy of a reference nobody has used.
+func freshCopy(src, dst string, dl float64, in [2]float64) (o outcome) {
+	defer func() {
+		if r := recover(); r != nil {
+			o.panic = fmt.Sprint(r)
+		}
+	}()
+	s, err := proj.Parse(src)
+	if err != nil {
+		return outcome{err: true}
+	}
+	d, err := proj.Parse(dst)
+	if err != nil {
+		return outcome{err: true}
+	}
+	cp := *s
+	cp.Long0 += dl
+	t, err := cp.NewTransform(d)
 	if err != nil {
 		return outcome{err: true}
 	}
@@ -248,8 +273,10 @@ func runHistory(c *core.Ctx) {
 	}
 	detail := map[string]interface{}{"S": S, "D": D, "class": class}
 	// build the three shared transformers once
-	var T, Tr, Tw, Tfw proj.Transformer
+	var T, Tr, Tw, Tfw, Tc proj.Transformer
 	var srS, srD *proj.SR
+	var cpS proj.SR // a value copy of srS with another central meridian: a different spatial reference
+	copyDL := float64(r.IntRange(1, 6)) * math.Pi / 180
 	if c.Guard("NewTransform", detail, func() {
 		var err error
 		if srS, err = proj.Parse(S); err != nil {
@@ -270,6 +297,11 @@ func runHistory(c *core.Ctx) {
 		}
 		if Tfw, err = wgs.NewTransform(srS); err != nil {
 			Tfw = nil
+		}
+		cpS = *srS
+		cpS.Long0 += copyDL
+		if Tc, err = cpS.NewTransform(srD); err != nil {
+			Tc = nil
 		}
 	}) {
 		return
@@ -301,6 +333,8 @@ func runHistory(c *core.Ctx) {
 			cl.which = 3 + r.Intn(2)
 		} else if r.Chance(0.15) {
 			cl.which = 5
+		} else if r.Chance(0.12) {
+			cl.which = 6
 		}
 		i := r.Intn(5)
 		if cl.which == 5 {
@@ -326,7 +360,7 @@ func runHistory(c *core.Ctx) {
 	if n >= 2 && class == "hop" {
 		c.Nontrivial(h.Sum())
 	}
-	names := []string{"T(S->D)", "T'(D->S)", "T''(S->WGS84)", "a transformer S->D built now from the same two spatial references", "a transformer D->S built now from the same two spatial references", "Tw(registered WGS84->S)"}
+	names := []string{"T(S->D)", "T'(D->S)", "T''(S->WGS84)", "a transformer S->D built now from the same two spatial references", "a transformer D->S built now from the same two spatial references", "Tw(registered WGS84->S)", "Tc(a value copy of S with its central meridian moved -> D)"}
 	rebuilt := func(a, b *proj.SR, in [2]float64) (o outcome) {
 		defer func() {
 			if r := recover(); r != nil {
@@ -360,6 +394,9 @@ func runHistory(c *core.Ctx) {
 		case 5:
 			c.Count("history.from_registered_wgs84")
 			got, want = apply(Tfw, cl.in), fresh("WGS84", S, cl.in)
+		case 6:
+			c.Count("history.from_an_edited_copy_of_S")
+			got, want = apply(Tc, cl.in), freshCopy(S, D, copyDL, cl.in)
 		}
 		log = append(log, fmt.Sprintf("#%d %s(%v, %v) -> shared (%v, %v, err=%v) fresh (%v, %v, err=%v)", k, names[cl.which], cl.in[0], cl.in[1], got.x, got.y, got.err, want.x, want.y, want.err))
 		detail["history"] = log
